@@ -244,6 +244,9 @@ func (e *Env) auditHigherLevels(c *Chain) *Violation {
 			if got.Hash() != want.Hash() {
 				v := e.fail("compaction-not-equivalent", "file %s is not equivalent to applying level-0 files %d..%d in order: pages=%d vs %d%s", k, k.Min, k.Max, got.NPages, want.NPages, diffStates(got, want))
 				v.Facts["level"] = k.Level
+				if k.Level == litestream.SnapshotLevel {
+					v.Facts["db_file_ahead_of_pos"] = e.dbFileAhead(ent, got, want)
+				}
 				return v
 			}
 			if k.Level != litestream.SnapshotLevel {
@@ -656,4 +659,66 @@ func (e *Env) auditTimestamps(c *Chain, maxT int) *Violation {
 		}
 	}
 	return nil
+}
+
+// dbFileAhead reports whether a snapshot that differs from the state of the
+// TXID it advertises differs only where it copied, from the main database file,
+// pages of commits later than that TXID: every differing page of the snapshot
+// equals the page the database file held when the upload began, and that
+// content first exists in the ledger after the last commit equal to the
+// advertised state. (Litestream's read mark can be ahead of its copy cursor, so
+// a checkpoint may back-fill frames it has not copied yet; see finding F7.)
+func (e *Env) dbFileAhead(ent *ArchEntry, got, want *State) bool {
+	img := ent.DBImage
+	if img == nil {
+		return false
+	}
+	// last ledger commit that equals the advertised state
+	at := -1
+	for i, ls := range e.Led.States {
+		if ls.NPages == want.NPages && ls.Hash() == want.Hash() {
+			at = i
+		}
+	}
+	if at < 0 {
+		return false
+	}
+	later := func(pg uint32, sum [32]byte) bool {
+		first := -1
+		for i, ls := range e.Led.States {
+			if p := ls.Pages[pg]; p != nil && p.Sum == sum {
+				first = i
+				break
+			}
+		}
+		return first > at
+	}
+	n := got.NPages
+	if want.NPages > n {
+		n = want.NPages
+	}
+	differ := 0
+	for pg := uint32(1); pg <= n; pg++ {
+		g, w := got.Pages[pg], want.Pages[pg]
+		if g != nil && w != nil && g.Sum == w.Sum {
+			continue
+		}
+		if g == nil && w == nil {
+			continue
+		}
+		differ++
+		if g == nil {
+			// the snapshot is shorter than the advertised state: the file must
+			// already have been truncated to a later commit's size
+			if img.NPages >= pg {
+				return false
+			}
+			continue
+		}
+		ip := img.Pages[pg]
+		if ip == nil || ip.Sum != g.Sum || !later(pg, g.Sum) {
+			return false
+		}
+	}
+	return differ > 0
 }
